@@ -25,7 +25,7 @@ type EvolveCase struct {
 	After  *progen.Module `json:"after"`
 	Iter   string         `json:"iter"`
 	Header bool           `json:"header,omitempty"` // first gen with -header_file, second without
-	Tweak  bool           `json:"tweak,omitempty"`  // between the two gens, give every import of every output an explicit different name
+	Tweak  string         `json:"tweak,omitempty"`  // between the two gens: "aliases" (every import of every output gets an explicit different name), "tail" (a left-over tail is appended), "cut" (outputs torn in the middle)
 }
 
 func cloneModule(m *progen.Module) *progen.Module {
@@ -57,9 +57,16 @@ func GenEvolveCase(r *rand.Rand) *EvolveCase {
 		keep = keep[1:]
 	}
 	small.Injectors = keep
-	c := &EvolveCase{Evolve: true, Before: m, After: small, Iter: []string{"asc", "desc", fmt.Sprintf("shuffle:%d", r.IntN(100000))}[r.IntN(3)], Header: r.IntN(5) == 0, Tweak: r.IntN(2) == 0}
-	if r.IntN(3) == 0 {
+	c := &EvolveCase{Evolve: true, Before: m, After: small, Iter: []string{"asc", "desc", fmt.Sprintf("shuffle:%d", r.IntN(100000))}[r.IntN(3)], Header: r.IntN(5) == 0, Tweak: []string{"", "aliases", "aliases", "tail", "cut"}[r.IntN(5)]}
+	switch r.IntN(4) {
+	case 0:
 		c.Before, c.After = small, m
+	case 1:
+		c.After = c.Before // unchanged sources: only the outputs were touched in between
+		if c.Tweak == "" {
+			c.Tweak = "tail"
+		}
+		c.Header = false
 	}
 	return c
 }
@@ -119,12 +126,24 @@ func (e *Engine) RunEvolveCase(c *EvolveCase, dir string) *Outcome {
 		e.Stats.Counts.Add("evolve_rejected_by_wire", 1)
 		return out
 	}
-	if c.Tweak {
+	if c.Tweak != "" {
 		for _, p := range c.Before.Pkgs {
 			path := filepath.Join(w.AppDir, filepath.FromSlash(p.Path), "wire_gen.go")
-			if data, err := os.ReadFile(path); err == nil {
-				os.WriteFile(path, TweakOutput(data), 0666)
+			data, err := os.ReadFile(path)
+			if err != nil {
+				continue
 			}
+			switch c.Tweak {
+			case "aliases":
+				data = TweakOutput(data)
+			case "tail":
+				data = append(data, []byte("\n// left-over tail of an older, longer output\nfunc StaleTail() {}\n")...)
+			case "cut":
+				if i := bytes.Index(data, []byte("\npackage ")); i > 0 {
+					data = data[:i+(len(data)-i)/2]
+				}
+			}
+			os.WriteFile(path, data, 0666)
 		}
 	}
 	// switch the sources, keep the outputs
